@@ -5,6 +5,7 @@ package main
 import (
 	"encoding/json"
 	"fmt"
+	"go/token"
 	"os"
 	"sort"
 	"strings"
@@ -102,6 +103,10 @@ type Explorer struct {
 	assertQueries                   int64
 	schedSwitches, schedTransitions int64
 	witnesses                       []Witness
+	sensMu                          sync.Mutex
+	sensitive                       map[token.Pos]int
+	sensChanged                     bool
+	roundAbort                      int32
 }
 
 // Witness is the solver's model of one completed path (replayed natively to
@@ -114,12 +119,31 @@ type Witness struct {
 
 func newExplorer(P *Program, fn *ssa.Function, cfg Config) *Explorer {
 	e := &Explorer{P: P, cfg: cfg, fn: fn, knownHits: map[string]int{}, reach: map[string]int64{},
-		funcInstrs: map[string]int64{}, stubs: map[string]int{}}
+		funcInstrs: map[string]int64{}, stubs: map[string]int{}, sensitive: map[token.Pos]int{}}
 	e.cond = sync.NewCond(&e.mu)
 	return e
 }
 
+// Run explores all paths. If a round discovers a new arrival-order-sensitive
+// channel (see sched.go) the exploration is repeated with that knowledge.
 func (e *Explorer) Run() {
+	for round := 0; round < 4; round++ {
+		e.sensChanged = false
+		e.runRound()
+		if !e.sensChanged {
+			return
+		}
+		// forget the round's results, keep the sensitivity table
+		sens := e.sensitive
+		fresh := newExplorer(e.P, e.fn, e.cfg)
+		fresh.sensitive = sens
+		*e = *fresh
+		e.cond = sync.NewCond(&e.mu)
+	}
+	e.note("channel sensitivity table did not stabilise")
+}
+
+func (e *Explorer) runRound() {
 	e.work = []pathSpec{{}}
 	var wg sync.WaitGroup
 	stopProgress := make(chan struct{})
@@ -151,10 +175,10 @@ func (e *Explorer) Run() {
 			defer solver.Close()
 			for {
 				e.mu.Lock()
-				for len(e.work) == 0 && e.busy > 0 && atomic.LoadInt32(&e.stop) == 0 {
+				for len(e.work) == 0 && e.busy > 0 && atomic.LoadInt32(&e.stop) == 0 && atomic.LoadInt32(&e.roundAbort) == 0 {
 					e.cond.Wait()
 				}
-				if len(e.work) == 0 || atomic.LoadInt32(&e.stop) != 0 {
+				if len(e.work) == 0 || atomic.LoadInt32(&e.stop) != 0 || atomic.LoadInt32(&e.roundAbort) != 0 {
 					e.mu.Unlock()
 					e.cond.Broadcast()
 					return
@@ -207,6 +231,14 @@ func (e *Explorer) newInterp(solver *Solver, spec pathSpec) *interpreter {
 }
 
 func (e *Explorer) runPath(spec pathSpec, solver *Solver) {
+	e.sensMu.Lock()
+	changed := e.sensChanged
+	e.sensMu.Unlock()
+	if changed {
+		// the round is going to be repeated with the new sensitivity table
+		atomic.StoreInt32(&e.roundAbort, 1)
+		return
+	}
 	if e.cfg.MaxPaths > 0 && atomic.LoadInt64(&e.paths) >= e.cfg.MaxPaths {
 		e.note("path budget exhausted")
 		atomic.StoreInt32(&e.stop, 1)
